@@ -15,8 +15,9 @@ type txnGen struct {
 	nowIdx uint64
 	known  []uint64 // symbolic times of windows that certainly exist on the implementation side
 	// dbi name -> flags (application DBIs the script created)
-	dbis  map[string]uint
-	order []string
+	dbis    map[string]uint
+	order   []string
+	noEmpty bool
 }
 
 func (t *txnGen) now() uint64 {
@@ -44,6 +45,9 @@ func (t *txnGen) keyFor(name string) []byte {
 func (t *txnGen) appVal() []byte {
 	switch t.r.Intn(8) {
 	case 0:
+		if t.noEmpty {
+			return []byte("e")
+		}
 		return nil // empty application value
 	case 1:
 		return []byte("v")
@@ -256,7 +260,14 @@ func genTxnScript(g *Gen, native, hack, pad bool, steps int) []string {
 // flavor selects which property's oracle op replaces the plain op: "c18", "c10", "c06", "c11".
 func genTxnScriptF(g *Gen, native, hack, pad bool, steps int, flavor string) []string {
 	t := &txnGen{g: g, r: g.R, native: native, hack: hack, dbis: map[string]uint{}}
-	t.lines = append(t.lines, "clock.reset", fmt.Sprintf("env.new a %s %s %s 0 -", b2s(native), b2s(hack), b2s(pad)))
+	t.noEmpty = flavor == "c04" // empty application values are findings D7/D13 of other properties
+	// the tomb sweeper is configured in some environments (always for C04, never for C10's
+	// re-merge oracle): every transaction then works with a stale-deletion cut-off
+	cut, sw := "0", ""
+	if flavor == "c04" || (flavor != "c10" && g.R.Intn(4) == 0) {
+		cut, sw = "1000000000000000000", " sw"
+	}
+	t.lines = append(t.lines, "clock.reset", fmt.Sprintf("env.new a %s %s %s 0 -%s", b2s(native), b2s(hack), b2s(pad), sw))
 	for s := 0; s < steps; s++ {
 		switch t.r.Intn(7) {
 		case 0, 1:
@@ -269,27 +280,29 @@ func genTxnScriptF(g *Gen, native, hack, pad bool, steps int, flavor string) []s
 			ls := []string{"T", "T", "T-1", "0", "T+1"}[t.r.Intn(5)]
 			switch {
 			case flavor == "c18":
-				t.lines = append(t.lines, fmt.Sprintf("prop.c18.load a %s %s %d 0", t.snapshot(), ls, t.now()))
+				t.lines = append(t.lines, fmt.Sprintf("prop.c18.load a %s %s %d %s", t.snapshot(), ls, t.now(), cut))
+			case flavor == "c04":
+				t.lines = append(t.lines, fmt.Sprintf("prop.c04.load a %s %s %d %s", t.snapshot(), ls, t.now(), cut))
 			case flavor == "c11" && !native:
 				// the loop's bookkeeping: lastSynced is the id after the previous LS transaction
-				t.lines = append(t.lines, fmt.Sprintf("prop.c11.load a %s %s %d 0", t.snapshot(), []string{"0", "T-1", "0"}[t.r.Intn(3)], t.now()))
+				t.lines = append(t.lines, fmt.Sprintf("prop.c11.load a %s %s %d %s", t.snapshot(), []string{"0", "T-1", "0"}[t.r.Intn(3)], t.now(), cut))
 			case flavor == "c10":
 				snap := t.snapshot() // before the op's own windows exist
 				n1 := t.now()
 				t.lines = append(t.lines, fmt.Sprintf("prop.c10.reload a %s %d %d", snap, n1, t.nowMaybe()))
 			default:
-				t.lines = append(t.lines, fmt.Sprintf("txn.load a %s %s %d 0", t.snapshot(), ls, t.now()))
+				t.lines = append(t.lines, fmt.Sprintf("txn.load a %s %s %d %s", t.snapshot(), ls, t.now(), cut))
 			}
 		case 5:
 			if flavor == "c06" || flavor == "c10" {
-				t.lines = append(t.lines, fmt.Sprintf("prop.c06.send a %d 0", t.now()))
+				t.lines = append(t.lines, fmt.Sprintf("prop.c06.send a %d %s", t.now(), cut))
 			} else {
-				t.lines = append(t.lines, fmt.Sprintf("txn.send a %d 0", t.now()))
+				t.lines = append(t.lines, fmt.Sprintf("txn.send a %d %s", t.now(), cut))
 			}
 		case 6:
 			if !native {
 				if t.r.Intn(2) == 0 {
-					t.lines = append(t.lines, fmt.Sprintf("txn.m2s a %d 0", t.now()))
+					t.lines = append(t.lines, fmt.Sprintf("txn.m2s a %d %s", t.now(), cut))
 				} else {
 					t.lines = append(t.lines, "txn.s2m a")
 				}
